@@ -34,6 +34,7 @@ from __future__ import annotations
 from functools import cache
 from typing import Tuple, Dict, Iterable
 from copy import deepcopy, copy
+import re
 import numpy
 import numpy as np
 import pandas
@@ -73,6 +74,16 @@ class Unit:
         raise ValueError(f"Invalid prefix: {prefix}")
 
     @staticmethod
+    def _number(text: str) -> float:
+        """
+        The value of a decimal number as it is written in a quantity ('10', '0.5', '1e-3', 'inf'). What float() reads
+        beyond that - '1_0' as ten, digits of other scripts, surrounding whitespace - is not a number here.
+        """
+        if not re.fullmatch(r'[+-]?((\d+\.?\d*|\.\d+)([eE][+-]?\d+)?|inf|infinity|nan)', text, re.ASCII | re.IGNORECASE):
+            raise ValueError("Value is not a valid float.")
+        return float(text)
+
+    @staticmethod
     def parse_quantity(quantity: str) -> Tuple[float, str]:
         """
 
@@ -93,10 +104,7 @@ class Unit:
             raise ValueError("Value and unit must be separated by a single space.")
 
         value, unit = quantity.split(' ')
-        try:
-            value = float(value)
-        except ValueError as exc:
-            raise ValueError("Value is not a valid float.") from exc
+        value = Unit._number(value)
         if value != value:
             raise ValueError("Value is not a number.")
 
@@ -132,15 +140,15 @@ class Unit:
         if concentration[-4:] in replacements:
             concentration = concentration[:-4] + replacements[concentration[-4:]]
             numerator, denominator = map(str.split, concentration.split('/'))
-            numerator[0] = float(numerator[0]) / 100  # percent
+            numerator[0] = Unit._number(numerator[0]) / 100 if numerator else None  # percent
         else:
             numerator, denominator = map(str.split, concentration.split('/'))
         if len(numerator) != 2 or not 1 <= len(denominator) <= 2:
             raise ValueError("Concentration must be of the form '1 umol/mL'.")
         try:
-            numerator[0] = float(numerator[0])
+            numerator[0] = Unit._number(numerator[0]) if isinstance(numerator[0], str) else numerator[0]
             if len(denominator) > 1:
-                denominator_value = float(denominator.pop(0))
+                denominator_value = Unit._number(denominator.pop(0))
                 if denominator_value in (float('inf'), float('-inf')):
                     raise ValueError("Value is not a finite number.")
                 numerator[0] /= denominator_value
